@@ -58,7 +58,7 @@ theorem bytesLt_total : ∀ a b, bytesLt a b = false → a = b ∨ bytesLt b a =
         subst this
         rcases bytesLt_total xs ys h with h' | h'
         · left; rw [h']
-        · right; exact h'
+        · right; simpa using h'
 
 /-! ## the two-index scan -/
 
@@ -108,7 +108,7 @@ theorem scan_correct {lt : List Nat → List Nat → Prop} (ho : StrictOrder lt)
           rw [← h1, hs'.1] at this
           exact ho.irrefl _ this
         · exact ⟨m, hm, h1, h2⟩
-    · simp only [hs, if_false]
+    · simp only [hs, Bool.false_eq_true, if_false]
       rw [scan_correct ho vs (tm :: ts) st sv']
       constructor
       · intro h e he
@@ -175,31 +175,28 @@ theorem findMethod_correct : ∀ (v : List Ent) (im : Ent), sortedNames v →
           · have := bytesLt_trans _ _ _ a e
             rw [bytesLt_irrefl] at this; cases this
 
+/-- the `mapM` of `newItabFuns` as a plain recursion -/
+theorem newItabFuns_cons (im : Ent) (ims v : List Ent) :
+    newItabFuns (im :: ims) v =
+      if (findMethod v im).2 = true then (newItabFuns ims v).map ((findMethod v im).1 :: ·) else none := by
+  unfold newItabFuns
+  simp only [List.mapM_cons]
+  split
+  · cases List.mapM (fun im => if (findMethod v im).2 = true then some (findMethod v im).1 else none) ims <;> rfl
+  · rfl
+
 theorem newItabFuns_isSome (t v : List Ent) (sv : sortedNames v) :
     (newItabFuns t v).isSome = true ↔ implSpec t v := by
   induction t with
   | nil => simp [newItabFuns, implSpec]
   | cons im ims ih =>
     have hf := findMethod_correct v im sv
-    unfold newItabFuns at ih ⊢
-    simp only [List.mapM_cons, implSpec, List.mem_cons, forall_eq_or_imp]
+    rw [newItabFuns_cons]
+    have hspec : implSpec (im :: ims) v ↔ (∃ m ∈ v, m.name = im.name ∧ m.typ = im.typ) ∧ implSpec ims v := by
+      simp [implSpec]
+    rw [hspec, ← ih, ← hf]
     cases h2 : (findMethod v im).2 with
-    | false =>
-      simp only [h2, Bool.false_eq_true, false_iff] at hf
-      simp [h2, hf]
-    | true =>
-      simp only [h2, true_iff] at hf
-      simp only [if_true, Option.pure_def, Option.bind_eq_bind, Option.bind_some]
-      cases hm : List.mapM (fun im => if (findMethod v im).2 = true then some (findMethod v im).1 else none) ims with
-      | none =>
-        rw [hm] at ih
-        simp only [Option.isSome_none, Bool.false_eq_true, false_iff] at ih
-        simp [hf, fun h => ih h]
-        intro h; exact absurd h ih
-      | some l =>
-        rw [hm] at ih
-        simp only [Option.isSome_some, true_iff] at ih
-        simp [hf]
-        exact ih
+    | false => simp
+    | true => simp
 
 end LlgoVerif.Face
